@@ -98,6 +98,13 @@ func (C17) Runs(tier string) uint64 {
 var sharedOps = []string{"ConditionExpr", "TimeRangeMethods", "Reduce", "String", "Clone", "CloneExpr", "WalkFunc", "WalkNil", "Eval", "EvalBool", "EvalFields", "Reduce", "ReduceExpr", "RewriteFields", "ConditionExpr", "EvalType", "TypeValuerEval", "FieldDimensions", "ColumnNames", "FieldExprByName", "Names", "AliasNames", "Measurements", "RequiredPrivileges", "HasWildcard", "ExprNames", "HasTimeExpr", "TimeAscending", "ContainsVarRef", "IsSelector", "BinaryExprName", "Normalize", "TimeRangeMethods", "PartitionExpr", "ConjunctionsRoundTrip", "SortFields", "ListStrings"}
 var indepKinds = []string{"parse-query", "parse-stmt", "parse-expr", "print-own", "quote-string", "quote-ident", "needs-quotes", "format-duration", "parse-duration", "sanitize", "lookup", "language-clone", "own-settimerange", "own-rewrite", "parse-stream", "shared-stmt"}
 
+// statements whose leading keywords sit at different nodes of the dispatch tree
+var nearMissBases = []string{"SELECT v FROM m", "DELETE FROM m", "GRANT ALL TO u", "EXPLAIN SELECT v FROM m", "CREATE DATABASE d", "CREATE USER u WITH PASSWORD 'p'",
+	"CREATE RETENTION POLICY rp ON d DURATION 1h REPLICATION 1", "CREATE CONTINUOUS QUERY q ON d BEGIN SELECT mean(v) INTO o FROM m GROUP BY time(1m) END", "CREATE SUBSCRIPTION s ON d.rp DESTINATIONS ALL 'udp://h:9'",
+	"SHOW DATABASES", "SHOW USERS", "SHOW TAG KEYS FROM m", "SHOW FIELD KEYS", "SHOW RETENTION POLICIES ON d", "SHOW MEASUREMENT CARDINALITY", "SHOW SERIES EXACT CARDINALITY",
+	"DROP DATABASE d", "DROP MEASUREMENT m", "DROP SERIES FROM m", "DROP CONTINUOUS QUERY q ON d", "DROP RETENTION POLICY rp ON d", "DROP SHARD 1", "ALTER RETENTION POLICY rp ON d DEFAULT",
+	"REVOKE ALL FROM u", "KILL QUERY 1", "SET PASSWORD FOR u = 'p'", "BEGIN", "END"}
+
 func genTaskOp(r *core.Rand, o gen.Opts, nShared int, pool int, hot *TaskOp) TaskOp {
 	if hot != nil && r.Chance(3, 4) {
 		return *hot
@@ -118,6 +125,11 @@ func genTaskOp(r *core.Rand, o gen.Opts, nShared int, pool int, hot *TaskOp) Tas
 		}
 	case "parse-stmt", "print-own":
 		t.Text = core.RawStr(gen.Statement(r, o))
+		if t.Kind == "parse-stmt" && r.Chance(1, 4) {
+			// a near-miss of a statement (mistyped, dropped or repeated leading word): the error
+			// paths of the process-wide dispatch tree, usually at the same node in several tasks
+			t.Text = core.RawStr(gen.Damage(r, r.Pick(nearMissBases)))
+		}
 		if r.Chance(1, 6) {
 			// an input larger than any internal buffer
 			t.Text = core.RawStr(string(t.Text) + " /* " + strings.Repeat("pad "+salt+" ", r.Pick3(500, 1030, 1800)) + "*/")
